@@ -60,7 +60,7 @@ type fwResult struct {
 	FollowPanic  string              `json:"follow_panic,omitempty"`
 	FollowHang   bool                `json:"follow_hang,omitempty"`
 	FollowCalls  int                 `json:"follow_calls,omitempty"`
-	Unit         *fwUnitObs            `json:"unit,omitempty"`
+	Unit         *fwUnitObs          `json:"unit,omitempty"`
 }
 
 func fwGenOptions(abstract bool) fed.GenOptions {
